@@ -33,6 +33,8 @@ type Spec struct {
 	TCPBuf   int    `json:"tcpbuf"`
 	IdleS    int    `json:"idle_s"` // seconds both sides stay silent after the handshake before data flows
 	Manager  bool   `json:"listener_from_manager,omitempty"` // the listener is obtained from the listener manager (the server's accept path); the client half-closes and reads the answer late, with a small receive buffer
+	FirstCut int    `json:"first_cut,omitempty"`     // the client's first write carries only this many bytes; the rest follows once the server has taken them
+	StartS   int    `json:"start_after_s,omitempty"` // the client connects this many seconds after the server started
 	StopMid  bool   `json:"listener_closed_mid_relay,omitempty"` // the listener stops accepting (StreamServe's context is cancelled) after the handshake; the relay goes on
 }
 
@@ -150,6 +152,9 @@ func build(s Spec) *engine.Scenario {
 			// the proxy's send queue (and is lost if that connection is reset)
 			vw.TCPSndBuf = 1 << 20
 		}
+		if s.StartS > 0 {
+			vrt.Sleep(time.Duration(s.StartS) * time.Second)
+		}
 		cl := world.Dial("203.0.113.7:0")
 		if s.Order == 3 || s.Manager {
 			cl.C.SetReadBuffer(256)
@@ -182,6 +187,10 @@ func build(s Spec) *engine.Scenario {
 				cl.Send(wire[:hs], s.Seg)
 				vrt.Sleep(time.Duration(s.IdleS) * time.Second)
 				cl.Send(wire[hs:], s.Seg)
+			} else if s.FirstCut > 0 && s.FirstCut < len(wire) {
+				cl.Send(wire[:s.FirstCut], 0)
+				vrt.WaitIdle()
+				cl.Send(wire[s.FirstCut:], s.Seg)
 			} else {
 				cl.Send(wire, s.Seg)
 			}
@@ -353,6 +362,19 @@ func gridE(tier string) []Spec {
 	for cipher := 0; cipher < 4; cipher++ {
 		for _, idle := range []int{58, 60, 3600} {
 			out = append(out, Spec{Cipher: cipher, AddrType: cipher % 3, Coalesce: 0, Up: 5000, Down: 7000, Chunk: 16383, IdleS: idle})
+		}
+	}
+	// the client's stream reaches the proxy split inside its first 50 bytes (salt alone, salt +
+	// length block, one byte short of what the key search needs, ...)
+	for cipher := 0; cipher < 4; cipher++ {
+		for _, cut := range []int{1, 16, 24, 32, 34, 49, 50, 51} {
+			out = append(out, Spec{Cipher: cipher, AddrType: cut % 3, Coalesce: cut % 2, Up: 100, Down: 50, Chunk: 16383, FirstCut: cut})
+		}
+	}
+	// connections that arrive long after the server started (6 s, 1 h, 5 h)
+	for cipher := 0; cipher < 4; cipher++ {
+		for _, start := range []int{6, 3600, 18000} {
+			out = append(out, Spec{Cipher: cipher, AddrType: cipher % 3, Coalesce: 0, Up: 300, Down: 200, Chunk: 16383, StartS: start})
 		}
 	}
 	return out
